@@ -29,13 +29,14 @@ PANIC_FN = re.compile(
     r"option::expect_failed$|option::unwrap_failed$|result::unwrap_failed$|slice::index::slice_\w+_fail|str::slice_error_fail|"
     r"::unreachable_display$|::assert_failed|cell::panic_already|alloc::raw_vec::capacity_overflow|::begin_panic)")
 UNWRAP_FN = re.compile(r"^std::(option::Option|result::Result)::(unwrap|expect|unwrap_err|expect_err)$")
-INDEX_FN = re.compile(r"(ops::Index(<[^>]*>)?( for [^>]*)?>?::index$|ops::IndexMut(<[^>]*>)?( for [^>]*)?>?::index_mut$|std::ops::Index::index$|std::ops::IndexMut::index_mut$)")
+INDEX_FN = re.compile(r"ops::index::Index(Mut)?(<[^>]*>)?>?::index(_mut)?$")
 SLICEOP_FN = re.compile(
     r"(^str::split_at$|^\[T\]::split_at$|^\[T\]::split_at_mut$|^std::vec::Vec::(remove|insert|swap_remove|drain|split_off)$|"
     r"^std::string::String::(remove|insert|insert_str|drain|split_off|replace_range)$|^\[T\]::copy_from_slice$|^\[T\]::swap$|"
     r"^std::cell::RefCell::(borrow|borrow_mut)$|^std::collections::VecDeque::(remove|insert|swap)$|^\[T\]::(chunks|windows|chunks_exact)$|"
     r"^std::iter::Iterator::step_by$|^char::from_digit$|^std::time::Instant::(sub|add)|^\[T\]::(first|last)_chunk)")
 DEBUG_GATE_MACROS = ("debug_assert", "debug_assert_eq", "debug_assert_ne")
+ANY = object()
 GROWTH_WATCH = re.compile(r"max_values|term_w|term_width|get_index|display_order|usize::MAX|u64::MAX")
 
 
@@ -128,29 +129,29 @@ def sites_of(body):
                     what = what.split("::")[-1]
                 out.append(Site(body, i, "panic", what, None, sp, mac))
             elif UNWRAP_FN.search(q):
-                out.append(Site(body, i, "unwrap", q.rsplit("::", 1)[-1], expr(body, c.args[0], 7), sp, mac))
+                out.append(Site(body, i, "unwrap", q.rsplit("::", 1)[-1], expr(body, c.args[0]), sp, mac))
             elif INDEX_FN.search(q) or (c.decl_q and INDEX_FN.search(c.decl_q)):
                 selfty = c.targs[0] if c.targs else "?"
                 idxty = c.targs[1] if len(c.targs) > 1 else "?"
                 what = "index<%s>[%s]" % (vset.ty_head(selfty), vset.ty_head(idxty))
-                e = "%s[%s]" % (expr(body, c.args[0], 5), expr(body, c.args[1], 7) if len(c.args) > 1 else "?")
+                e = "%s[%s]" % (expr(body, c.args[0]), expr(body, c.args[1]) if len(c.args) > 1 else "?")
                 out.append(Site(body, i, "index", what, e, sp, mac))
             elif SLICEOP_FN.search(q):
-                e = ",".join(expr(body, a, 6) for a in c.args)
+                e = ",".join(expr(body, a) for a in c.args)
                 out.append(Site(body, i, "sliceop", q.rsplit("::", 1)[-1], e, sp, mac))
         elif k == "assert":
             if mac in DEBUG_GATE_MACROS:
                 continue
             msg = t["msg"]
             if msg.startswith("Overflow") or msg in ("OverflowNeg", "DivisionByZero", "RemainderByZero"):
-                a = expr(body, t["a"], 7) if "a" in t else "?"
-                b = expr(body, t["b"], 7) if "b" in t else ""
+                a = expr(body, t["a"]) if "a" in t else "?"
+                b = expr(body, t["b"]) if "b" in t else ""
                 s = Site(body, i, "arith", msg, "%s ; %s" % (a, b), sp, mac)
                 s.detail = (a, b, t.get("ty", ""))
                 out.append(s)
             elif msg == "BoundsCheck":
-                a = expr(body, t["a"], 6)
-                b = expr(body, t["b"], 6)
+                a = expr(body, t["a"])
+                b = expr(body, t["b"])
                 s = Site(body, i, "bounds", msg, "%s ; %s" % (a, b), sp, mac)
                 s.detail = (a, b, "")
                 out.append(s)
@@ -191,6 +192,18 @@ def discharge_local(site, vres=None):
             if pol == want_v and ge == e:
                 site.discharge = "G"
                 site.detail = "inside the matching variant arm of %s" % ge
+                return "G"
+        m = re.fullmatch(r"(first|last|pop|last_mut|first_mut)\((?:deref(?:_mut)?\()?(.*?)\)?\)", e or "")
+        if m and is_opt:
+            base = m.group(2)
+            cf = cmp_facts(body, bb)
+            ln = "len(%s)" % base
+            nonempty = has_bool(body, bb, "F", r"^is_empty\(%s\)$" % re.escape(base)) \
+                or any(o in ("Gt", "Ge", "Eq") and a == ln and _is_int(b2) and int(b2) >= (0 if o == "Gt" else 1) for (o, a, b2) in cf) \
+                or any(pol.startswith("=") and pol[1:].isdigit() and int(pol[1:]) >= 1 and ge == ln for pol, ge, _ in guards(body, bb))
+            if nonempty:
+                site.discharge = "G"
+                site.detail = "collection known non-empty here"
                 return "G"
         if vres is not None and bb in vres.feasible and bb not in vres.panic_feasible and bb in vres.call_args:
             a0 = vres.call_args[bb][0]
@@ -259,6 +272,33 @@ def discharge_local(site, vres=None):
             site.discharge = "const"
             site.detail = "RangeFull"
             return "const"
+        m = re.fullmatch(r"(.*?)\[RangeFrom::RangeFrom\((.*)\)\]", site.operand or "")
+        if m:
+            base, start = m.group(1), m.group(2)
+            ln = "len(%s)" % base
+            if start in ("min(%s,%s)" % (x, y) for x, y in ((ln, ANY), (ANY, ln))) or re.fullmatch(r"min\((.*),%s\)|min\(%s,(.*)\)" % (re.escape(ln), re.escape(ln)), start):
+                site.discharge = "G"
+                site.detail = "range start clamped with min(.., %s)" % ln
+                return "G"
+            cf = cmp_facts(body, bb)
+            if ("Le", start, ln) in cf or ("Lt", start, ln) in cf:
+                site.discharge = "G"
+                site.detail = "dominated by %s <= %s" % (start, ln)
+                return "G"
+        m = re.fullmatch(r"(.*?)\[([^\[\]]*)\]", site.operand or "")
+        if m and re.search(r"index<(std::vec::Vec|\[T\]|\[\w+\])>\[usize\]", site.what):
+            base, idx = m.group(1), m.group(2)
+            cf = cmp_facts(body, bb)
+            ln = "len(%s)" % base
+            if ("Lt", idx, ln) in cf:
+                site.discharge = "G"
+                site.detail = "dominated by %s < %s" % (idx, ln)
+                return "G"
+            m2 = re.fullmatch(r"Sub\((.*),(\d+)\)", idx)
+            if m2 and (("Lt", m2.group(1), ln) in cf or ("Le", m2.group(1), ln) in cf):
+                site.discharge = "G"
+                site.detail = "dominated by %s < %s" % (m2.group(1), ln)
+                return "G"
         return None
     return None
 
